@@ -1417,7 +1417,8 @@ func conv(t_dst, t_src types.Type, x value) value {
 		}
 	}
 
-	panic(fmt.Sprintf("unsupported conversion: %s  -> %s, dynamic type %T", t_src, t_dst, x))
+	unsupported("conversion: %s  -> %s, dynamic type %T", t_src, t_dst, x)
+	return nil
 }
 
 // sliceToArrayPointer converts the value x of type slice to type t_dst
@@ -1439,7 +1440,8 @@ func sliceToArrayPointer(t_dst, t_src types.Type, x value) value {
 		}
 	}
 
-	panic(fmt.Sprintf("unsupported conversion: %s  -> %s, dynamic type %T", t_src, t_dst, x))
+	unsupported("conversion: %s  -> %s, dynamic type %T", t_src, t_dst, x)
+	return nil
 }
 
 // checkInterface checks that the method set of x implements the
